@@ -13,7 +13,8 @@
 (*          preset to a0                                                   *)
 (* The trace is accepted iff every line is a Session step:                 *)
 (*   AnsRule  previous_result afterwards = AnsAfter(flag, before, q, reply)*)
-(*   DbConst  registry digest, scratch names, settings never change        *)
+(*   DbConst  registry digest, scratch names, settings never change; the    *)
+(*            clock holds the time the call began (set by the wrapper)     *)
 (*   Purity   equal (query, previous answer) => equal reply digest, within *)
 (*            the long-lived run and against the fresh context             *)
 (* A refused line prints <<"WHY", line, clause>>.                          *)
@@ -33,7 +34,8 @@ S == INSTANCE Session WITH Queries <- TraceQueries, NoAns <- "none", Reply <- No
 
 ObsReply(e) == [kind |-> e.kind, raw |-> e.raw, rd |-> e.rd]
 
-Check(c, why) == c \/ (PrintT(<<"WHY", l, why>>) /\ FALSE)
+\* (IF, not \/: inside an action TLC explores both sides of a disjunction)
+Check(c, why) == IF c THEN TRUE ELSE PrintT(<<"WHY", l, why>>) /\ FALSE
 
 \* no earlier observation of the same (query, previous answer) gave another reply
 Pure(q, a, r) == \A x \in seen : (x[1] = q /\ x[2] = a) => x[3] = r
@@ -55,6 +57,7 @@ TStep ==
      /\ S!Step(e.q, r)                                 \* ans', db', save', settings', seen', last'
      /\ Check(ans' = e.ans, "ansrule")
      /\ Check(e.db = "" \/ (e.db = db /\ e.tmp = "{}" /\ e.settings = settings), "dbconst")
+     /\ Check(e.clock, "clock")        \* ctx.now is the time rink_core::eval set when the call began
   /\ l' = l + 1
 
 TFresh ==
